@@ -574,11 +574,11 @@ def run(ctx: Ctx):
                      "a unary nat); huge capacities are judged by the oracle and by the Coq spec_check (Z), large sizes by the oracle only")
     ctx.notes.append("events e1-e5 are detected by an instrumented Python port of the algorithm (maxflow_events.ref_run); it only steers "
                      "generation and fills histograms; histogram reference_port_agrees shows it reproduces the implementation's result")
-    n_lay = ctx.budget(240, 3000)
-    n_adv = ctx.budget(240, 3000)
-    n_rnd = ctx.budget(200, 3000)
+    n_lay = ctx.budget(240, 2500)
+    n_adv = ctx.budget(240, 2500)
+    n_rnd = ctx.budget(200, 2500)
     n_gad = ctx.budget(120, 1800)          # per gadget family
-    n_search = ctx.budget(20000, 220000)   # reference runs spent on the event-directed search
+    n_search = ctx.budget(20000, 150000)   # reference runs spent on the event-directed search
 
     # open known findings (none at the time of writing): replay their structured witnesses first
     for f in ctx.open_findings():
@@ -656,7 +656,7 @@ def run(ctx: Ctx):
         if target <= 5000 and rng.random() < 0.5:
             c["variant"] = SH.random_variant(rng, c)
         add("work", [c])
-    n_edit = ctx.budget(90, 1200)         # A2: in-place edits between calls
+    n_edit = ctx.budget(90, 800)         # A2: in-place edits between calls
 
     work_max = {}
     corr, spec, metas, spec_metas = [], [], [], []
@@ -685,10 +685,10 @@ def run(ctx: Ctx):
         if not bad and k % 4 == 0 and kind != "work":
             if prev is not None:
                 run_impl(prev[0])
-            again = run_impl(case)
+            again = run_impl(case, timeout=1200.0 if "expected" in case else 5.0)
             ctx.evaluations += 1
             if again[:4] != out[:4]:
-                bad = f"the same input gave a different answer on a second call: {again[1:4]!r} (first: {out[1:4]!r})"
+                bad = f"the same input gave a different answer on a second call: {repr(again[1:4])[:400]} (first: {repr(out[1:4])[:400]})"
             ctx.count("repeat_call", "same" if again[:4] == out[:4] else "different")
         if not bad and k % 8 == 3 and "expected" not in case:
             bad = run_sequence(case)
@@ -699,7 +699,7 @@ def run(ctx: Ctx):
             bout = run_impl(case["scaled_from"])
             if bout[0] == "ok" and oracle(case["scaled_from"], bout) is None and out[2] != bout[2] * case["scale"]:
                 bad = f"capacities scaled by {case['scale']}: objective {out[2]} != {case['scale']} * {bout[2]}"
-        prev = (case, out) if kind != "work" else prev
+        prev = (case, out) if "expected" not in case else prev
         if out[0] == "ok" and isinstance(out[3], int):
             wv = dict(case.get("work") or {})
             wv["augmentations"] = out[3]                  # measured: Result.iterations (the rest is by construction)
